@@ -125,4 +125,116 @@ example : fqP.fromLeBytesModOrder (List.replicate 100 255) = (256 ^ 100 - 1) % q
 example : fqP.fromBytesChecked (toLeBytes q 32) = none ∧ fqP.fromBytesChecked (toLeBytes (q - 1) 32) = some (q - 1) := by
   decide +kernel
 
+theorem toLeBytes_succ_snoc (x n : ℕ) : toLeBytes x (n + 1) = toLeBytes x n ++ [x / 256 ^ n % 256] := by
+  induction n generalizing x with
+  | zero => simp [toLeBytes]
+  | succ n ih =>
+    rw [toLeBytes, ih (x / 256), toLeBytes]
+    simp only [List.cons_append, List.cons.injEq, true_and, List.append_cancel_left_eq, List.cons.injEq, and_true]
+    rw [Nat.div_div_eq_div_mul, pow_succ, Nat.mul_comm]
+
+/-- the flag byte patterns the three arkworks flag types emit: kind 0 `EmptyFlags`, 1 `TEFlags`, 2 `SWFlags` -/
+def flagMask (kind flag : ℕ) : ℕ :=
+  match kind, flag with
+  | 1, 1 => 128
+  | 2, 1 => 128
+  | 2, 2 => 64
+  | _, _ => 0
+
+def flagOk (kind flag : ℕ) : Prop := (kind = 0 ∧ flag = 0) ∨ (kind = 1 ∧ flag ≤ 1) ∨ (kind = 2 ∧ flag ≤ 2)
+
+theorem flags_byte (kind flag b : ℕ) (hk : flagOk kind flag) (hb : b < 64) :
+    FP.flagsFromU8 kind (Nat.lor b (flagMask kind flag)) = some (flag, b) := by
+  rcases hk with ⟨rfl, rfl⟩ | ⟨rfl, hf⟩ | ⟨rfl, hf⟩
+  · interval_cases b <;> rfl
+  · interval_cases flag <;> interval_cases b <;> rfl
+  · interval_cases flag <;> interval_cases b <;> rfl
+
+/-- **serialisation with flags round-trips value and flags** (any field whose top byte has two spare bits, which is
+the case for Fq, Fr and Fp; every flag value of the three standard flag types) -/
+theorem flags_roundtrip (F : FP) (modLimbs : List ℕ) (hm : Lit.ofLimbs 64 modLimbs = F.m) (hml : ∀ l ∈ modLimbs, l < 2 ^ 64)
+    (hnl : modLimbs.length = F.nl) (hn : 0 < F.n8) (hbits : F.bits + 2 ≤ 8 * F.n8) (h8 : F.n8 ≤ 8 * F.nl)
+    (hmb : F.m ≤ 2 ^ F.bits) (hF : F.m < (2 ^ 64) ^ F.nl)
+    (kind flag : ℕ) (hk : flagOk kind flag) (x : ℕ) (hx : x < F.m) :
+    ∃ bytes, F.serWithFlags x (FP.flagBitsOf kind) (flagMask kind flag) = some bytes ∧ bytes.length = F.n8 ∧
+      F.deserWithFlags kind bytes modLimbs = .ok (x, flag) := by
+  obtain ⟨n, hn8⟩ : ∃ n, F.n8 = n + 1 := ⟨F.n8 - 1, by omega⟩
+  have hfb : FP.flagBitsOf kind ≤ 2 := by
+    rcases hk with ⟨rfl, _⟩ | ⟨rfl, _⟩ | ⟨rfl, _⟩ <;> simp [FP.flagBitsOf]
+  have hfb8 : ¬ FP.flagBitsOf kind > 8 := by omega
+  have hn8def : (F.bits + 7) / 8 = n + 1 := hn8
+  have hsz : (F.bits + FP.flagBitsOf kind + 7) / 8 = n + 1 := by omega
+  -- the top byte
+  have hxb : x < 2 ^ F.bits := lt_of_lt_of_le hx hmb
+  have hx256 : x < 256 ^ (n + 1) := by
+    calc x < 2 ^ F.bits := hxb
+      _ ≤ 2 ^ (8 * (n + 1)) := Nat.pow_le_pow_right (by norm_num) (by omega)
+      _ = 256 ^ (n + 1) := by rw [pow_mul]; norm_num
+  set b := x / 256 ^ n % 256 with hb
+  have hb64 : b < 64 := by
+    have h1 : x / 256 ^ n < 64 := by
+      rw [Nat.div_lt_iff_lt_mul (by positivity)]
+      calc x < 2 ^ F.bits := hxb
+        _ ≤ 2 ^ (6 + 8 * n) := Nat.pow_le_pow_right (by norm_num) (by omega)
+        _ = 64 * 256 ^ n := by rw [pow_add, pow_mul]; norm_num
+    exact lt_of_le_of_lt (Nat.mod_le _ _) h1
+  have hbytes : F.toBytesLe x = toLeBytes x n ++ [b] := by
+    unfold FP.toBytesLe; rw [hn8, toLeBytes_succ_snoc]
+  have hlen : (toLeBytes x n).length = n := toLeBytes_length x n
+  refine ⟨toLeBytes x n ++ [Nat.lor b (flagMask kind flag)], ?_, by simp [hlen, hn8], ?_⟩
+  · unfold FP.serWithFlags
+    rw [if_neg hfb8]
+    simp only [hbytes, hsz, List.length_append, hlen, List.length_singleton, beq_self_eq_true, if_true,
+      Nat.add_sub_cancel]
+    rw [List.take_left' hlen]
+    congr 3
+    rw [List.getD_eq_getElem?_getD, List.getElem?_append_right (by omega), hlen, Nat.sub_self]
+    rfl
+  · unfold FP.deserWithFlags
+    have hbuf : (F.bits + 7) / 8 = n + 1 := hn8def
+    simp only [hbuf, hsz, gt_iff_lt, lt_irrefl, if_false, List.length_append, hlen, List.length_singleton,
+      Nat.sub_self, List.replicate_zero, List.append_nil, Nat.add_sub_cancel]
+    have htake : (toLeBytes x n ++ [Nat.lor b (flagMask kind flag)]).take (n + 1) = toLeBytes x n ++ [Nat.lor b (flagMask kind flag)] := by
+      apply List.take_of_length_le; simp [hlen]
+    rw [htake]
+    have hget : (toLeBytes x n ++ [Nat.lor b (flagMask kind flag)]).getD n 0 = Nat.lor b (flagMask kind flag) := by
+      rw [List.getD_eq_getElem?_getD, List.getElem?_append_right (by omega), hlen, Nat.sub_self]; rfl
+    rw [hget, flags_byte kind flag b hk hb64]
+    simp only []
+    rw [List.take_left' hlen, ← hbytes]
+    have htk : (F.toBytesLe x).take (8 * F.nl) = F.toBytesLe x := by
+      apply List.take_of_length_le
+      unfold FP.toBytesLe; rw [toLeBytes_length]; exact h8
+    rw [htk]
+    have hle : leBytes (F.toBytesLe x) = x := by
+      unfold FP.toBytesLe; rw [hn8]; exact leBytes_toLeBytes x (n + 1) hx256
+    rw [hle]
+    have hxl : x < (2 ^ 64) ^ F.nl := lt_trans hx hF
+    obtain ⟨l1, l2, l3⟩ := toLimbs_spec 64 x F.nl hxl
+    have := (from_bigint_iff F modLimbs (toLimbs 64 x F.nl) hm hml (by rw [l1, hnl]) l2 x).mpr ⟨by rw [l3]; exact hx, l3.symm⟩
+    rw [this]
+
+/-- side conditions of `flags_roundtrip` for the three fields, from the translated constants (kernel evaluation) -/
+theorem flags_side_fq : Lit.ofLimbs 64 Gen.fields_fq.Fq.MODULUS_LIMBS.nats = fqP.m ∧ (∀ l ∈ Gen.fields_fq.Fq.MODULUS_LIMBS.nats, l < 2 ^ 64) ∧
+    Gen.fields_fq.Fq.MODULUS_LIMBS.nats.length = fqP.nl ∧ fqP.bits + 2 ≤ 8 * fqP.n8 ∧ fqP.n8 ≤ 8 * fqP.nl ∧ fqP.m ≤ 2 ^ fqP.bits := by decide +kernel
+theorem flags_side_fr : Lit.ofLimbs 64 Gen.fields_fr.Fr.MODULUS_LIMBS.nats = frP.m ∧ (∀ l ∈ Gen.fields_fr.Fr.MODULUS_LIMBS.nats, l < 2 ^ 64) ∧
+    Gen.fields_fr.Fr.MODULUS_LIMBS.nats.length = frP.nl ∧ frP.bits + 2 ≤ 8 * frP.n8 ∧ frP.n8 ≤ 8 * frP.nl ∧ frP.m ≤ 2 ^ frP.bits := by decide +kernel
+theorem flags_side_fp : Lit.ofLimbs 64 Gen.fields_fp.Fp.MODULUS_LIMBS.nats = fpP.m ∧ (∀ l ∈ Gen.fields_fp.Fp.MODULUS_LIMBS.nats, l < 2 ^ 64) ∧
+    Gen.fields_fp.Fp.MODULUS_LIMBS.nats.length = fpP.nl ∧ fpP.bits + 2 ≤ 8 * fpP.n8 ∧ fpP.n8 ≤ 8 * fpP.nl ∧ fpP.m ≤ 2 ^ fpP.bits := by decide +kernel
+
+/-- the round trip for Fq, Fr and Fp with the published modulus limbs -/
+theorem flags_roundtrip_all (kind flag : ℕ) (hk : flagOk kind flag) (x : ℕ) :
+    (x < fqP.m → ∃ bytes, fqP.serWithFlags x (FP.flagBitsOf kind) (flagMask kind flag) = some bytes ∧ bytes.length = fqP.n8 ∧
+      fqP.deserWithFlags kind bytes Gen.fields_fq.Fq.MODULUS_LIMBS.nats = .ok (x, flag)) ∧
+    (x < frP.m → ∃ bytes, frP.serWithFlags x (FP.flagBitsOf kind) (flagMask kind flag) = some bytes ∧ bytes.length = frP.n8 ∧
+      frP.deserWithFlags kind bytes Gen.fields_fr.Fr.MODULUS_LIMBS.nats = .ok (x, flag)) ∧
+    (x < fpP.m → ∃ bytes, fpP.serWithFlags x (FP.flagBitsOf kind) (flagMask kind flag) = some bytes ∧ bytes.length = fpP.n8 ∧
+      fpP.deserWithFlags kind bytes Gen.fields_fp.Fp.MODULUS_LIMBS.nats = .ok (x, flag)) := by
+  obtain ⟨a1, a2, a3, a4, a5, a6⟩ := flags_side_fq
+  obtain ⟨b1, b2, b3, b4, b5, b6⟩ := flags_side_fr
+  obtain ⟨c1, c2, c3, c4, c5, c6⟩ := flags_side_fp
+  exact ⟨fun hx => flags_roundtrip fqP _ a1 a2 a3 fq_ok.1 a4 a5 a6 fq_ok.2.2.2.2 kind flag hk x hx,
+    fun hx => flags_roundtrip frP _ b1 b2 b3 fr_ok.1 b4 b5 b6 fr_ok.2.2.2.2 kind flag hk x hx,
+    fun hx => flags_roundtrip fpP _ c1 c2 c3 fp_ok.1 c4 c5 c6 fp_ok.2.2.2.2 kind flag hk x hx⟩
+
 end C11
